@@ -515,4 +515,21 @@ func init() {
 		Variant{Name: "benign: entry ensured with a named local", Property: "C01", File: pst, Benign: true,
 			Old: "\t\t\t\tif _, reported := r.ackByTarget[targetShardID]; !reported {\n\t\t\t\t\tr.ackByTarget[targetShardID] = tasks[0].SourceTaskId\n\t\t\t\t}\n", New: "\t\t\t\t_, known := r.ackByTarget[targetShardID]\n\t\t\t\tif known {\n\t\t\t\t\tcontinue\n\t\t\t\t}\n\t\t\t\tr.ackByTarget[targetShardID] = tasks[0].SourceTaskId\n"},
 	)
+	// ---- benign refactorings next to the rules of the fourth seeding round
+	addVariants(
+		Variant{Name: "benign: reconcile prune in continue style", Property: "C09", File: ipr, Benign: true,
+			Old: "\t\t\tif _, ok2 := desiredReceivers[key]; !ok2 {\n\t\t\t\treceiversToClose = append(receiversToClose, key)\n\t\t\t}\n", New: "\t\t\tif _, ok2 := desiredReceivers[key]; ok2 {\n\t\t\t\tcontinue\n\t\t\t}\n\t\t\treceiversToClose = append(receiversToClose, key)\n"},
+		Variant{Name: "benign: repair flag set with an if instead of ||", Property: "C17", File: refl, Benign: true,
+			Old: "\t\tc, err := compat.RepairInvalidUTF8(event)\n\t\tchanged = changed || c\n", New: "\t\tc, err := compat.RepairInvalidUTF8(event)\n\t\tif c {\n\t\t\tchanged = true\n\t\t}\n"},
+		Variant{Name: "benign: watermark clone assigned after the literal", Property: "C02", File: pst, Benign: true,
+			Old: "\t\t\t\t\tclonedResp := proto.Clone(msg.Resp).(*adminservice.StreamWorkflowReplicationMessagesResponse)\n\t\t\t\t\tclonedMsg := RoutedMessage{\n\t\t\t\t\t\tSourceShard: msg.SourceShard,\n\t\t\t\t\t\tResp:        clonedResp,\n\t\t\t\t\t}\n\t\t\t\t\tr.logger.Debug(fmt.Sprintf(\"Sending high watermark", New: "\t\t\t\t\tclonedMsg := RoutedMessage{\n\t\t\t\t\t\tSourceShard: msg.SourceShard,\n\t\t\t\t\t}\n\t\t\t\t\tclonedMsg.Resp = proto.Clone(msg.Resp).(*adminservice.StreamWorkflowReplicationMessagesResponse)\n\t\t\t\t\tr.logger.Debug(fmt.Sprintf(\"Sending high watermark"},
+		Variant{Name: "benign: AggregateUpTo keeps the maximum with max()", Property: "C05", File: pst, Benign: true,
+			Old: "\t\tif current, ok := result[m.sourceShard]; !ok || m.sourceTask > current {\n\t\t\tresult[m.sourceShard] = m.sourceTask\n\t\t}\n", New: "\t\tif current, ok := result[m.sourceShard]; ok && current >= m.sourceTask {\n\t\t\tcontinue\n\t\t}\n\t\tresult[m.sourceShard] = m.sourceTask\n"},
+	)
+	addVariants(
+		Variant{Name: "benign: AggregateUpTo in continue style (C01 view)", Property: "C01", File: pst, Benign: true,
+			Old: "\t\tif current, ok := result[m.sourceShard]; !ok || m.sourceTask > current {\n\t\t\tresult[m.sourceShard] = m.sourceTask\n\t\t}\n", New: "\t\tif current, ok := result[m.sourceShard]; ok && current >= m.sourceTask {\n\t\t\tcontinue\n\t\t}\n\t\tresult[m.sourceShard] = m.sourceTask\n"},
+		Variant{Name: "benign: two-segment copy in ensureCapacity (C04 view, imported obligations)", Property: "C04", File: pst, Benign: true,
+			Old: "\tfor i := 0; i < b.size; i++ {\n\t\tidx := (b.head + i) % len(b.entries)\n\t\tnewEntries[i] = b.entries[idx]\n\t}\n", New: "\tcopy(newEntries, b.entries[b.head:])\n\tcopy(newEntries[len(b.entries)-b.head:], b.entries[:b.head])\n"},
+	)
 }
